@@ -146,6 +146,10 @@ impl F64 {
     // saturating float -> int cast (`x as i32`): exact on in-range integral values, NaN -> 0, saturates otherwise
     #[verifier::external_body] pub fn to_i32(x: F64) -> (r: i32)
         ensures fv(x) is Fin && -2147483648real <= rv(x) <= 2147483647real && rv(x) == (rfloor(rv(x)) as real) ==> r as int == rfloor(rv(x)),
+            // saturation (Rust reference, `as` casts from float to int since 1.45): below the range or -inf -> i32::MIN, above or +inf -> i32::MAX, NaN -> 0
+            (fv(x) is NegInf || (fv(x) is Fin && rv(x) < -2147483648real)) ==> r == i32::MIN,
+            (fv(x) is PosInf || (fv(x) is Fin && rv(x) > 2147483647real)) ==> r == i32::MAX,
+            fv(x) is NaN ==> r == 0,
     { x.0 as i32 }
 }
 pub trait VxToF64: Sized { spec fn as_real(self) -> real; fn vx_conv(self) -> (r: F64) ensures fv(r) == Ext::Fin(self.as_real()); }
